@@ -296,6 +296,13 @@ func (c *Client) Listen() error {
 
 				break
 			}
+			if n > len(buf) {
+				// Over a stream transport a frame can be larger than the read
+				// buffer: it was truncated and cannot be handled, drop it.
+				c.log.Debugf("Read bytes exceeded the buffer size, frame dropped")
+
+				continue
+			}
 
 			// A datagram that cannot be handled (undecodable, a STUN request,
 			// non-STUN data from the server address, an unknown channel) must not
